@@ -327,3 +327,37 @@ CLAIMS["C13"] = ("other",
     "joint quantum states of unrolled programs and engine-side options are bounded only (Gaussian backend)",
     "deductive VCs (typestate invariant over symbolic integers) + contracts at enumerated shapes + bounded stand-in",
     "DESIGN.md 0.2, 5/C13")
+
+
+# ---- additions of the last rounds (bosonic simulator under contract etc.)
+def _add(pid, text, idx=1):
+    c = list(CLAIMS[pid])
+    c[idx] = c[idx] + " " + text
+    CLAIMS[pid] = tuple(c)
+
+
+_BOS = ("Bosonic simulator (weighted sums of Gaussians with complex means, 2 modes x 2 components and 3 x 1, every entry symbolic; "
+        "shape-bounded): displace, squeeze, phase_shift, beamsplitter, loss, thermal_loss, init_thermal act on EVERY component by the "
+        "documented affine phase-space map, entry by entry, weights untouched; deleted modes refused with the state untouched.")
+_add("C01", _BOS)
+_add("C05", "Bosonic simulator: the same entry-by-entry contracts read outside the target quadratures (frame); general-dyne post-selection "
+            "conditions every component by the Schur complement, resets the measured mode to an uncorrelated vacuum and reweights with the "
+            "BILINEAR quadratic form; Fock Circuit.dealloc / alloc with labelled tensors (every ordered list of modes).")
+_add("C07", "Bosonic measurement-based squeezing (average map): the channel handed on is completely positive for every detector efficiency "
+            "in (0, 1] (X of unit determinant, both noise terms non-negative) with the documented X, Y.")
+_add("C08", "Bosonic add_mode / del_mode (new mode last, vacuum, uncorrelated; deleted mode inactive, vacuum, others untouched); Fock "
+            "Circuit.dealloc for every ORDERED list of modes and alloc (labelled tensors); multi-mode Del commands in every order in the "
+            "history stand-in.")
+_add("C06", "Bosonic post_select_generaldyne under contract (2 modes x 2 components, complex means, symbolic measurement covariance and "
+            "outcome): Schur-complement update of every component, measured mode reset, exponent of the reweighting = -1/2 x the bilinear "
+            "form, normalisation det(2 pi (C + sigma)); the final complex division by the sum of the weights and the zero-weight filter are "
+            "not checked.")
+_add("C15", "A state object is closed over its own convention: with the global sf.hbar and the state's hbar as DIFFERENT symbols, "
+            "fidelity_coherent builds its reference state in the state's convention, mean_photon uses it, thewalrus is handed it; the "
+            "stand-in repeats every query after the global convention was changed.")
+_add("C17", "Drivers graph_embed / bipartite_graph_embed with the LAPACK callees and the root finder replaced by their contracts (2 x 2 "
+            "symbolic complex matrix; shape-bounded): takagi only ever gets a symmetric matrix (callee precondition), the matrix handed on "
+            "is scale x input (traceless first when requested), squeezing = -arctanh(s), U / V arranged as documented; Hermitian, "
+            "permutation and rank-one families in the stand-in.")
+_add("C03", "With measured-parameter dependencies among the abstract operations: every source operation occurs exactly once, users of an "
+            "outcome stay after their measurement and before the next one of that mode, merged operations keep the dependencies of their parts.")
